@@ -260,4 +260,64 @@ def rrStep (s : ResR) : RREv → ResR
       { s with res := rstep s.res (.finish k),
                readers := if delivered then s.readers.map fun r => { r with guard := false } else s.readers }
 
+/-! ### reader boundaries with a suspense task of their own (`resourcerdt`)
+
+Some reader boundaries also have a suspense task of their own: the boundary's counter counts both that task and the
+guard the resource holds for it, so the boundary is loading while EITHER is there. The tasks are kept beside the resource
+machine, aligned with its reader list: `some i` = the own task number `i` is pending. -/
+
+structure ResRT where
+  base : ResR
+  tasks : List (Option Nat)  -- aligned with `base.readers`: the pending own task of that reader's boundary
+  nv : Nat                   -- number of task-carrying readers added so far (= the number of the next own task)
+  deriving Repr
+
+def ResRT.init (dep : Nat) : ResRT := ⟨ResR.init dep, [], 0⟩
+
+inductive RTEv where
+  | readTask                 -- `v`: a new boundary with a task of its own reads the resource
+  | read                     -- `u`: a new boundary without one reads the resource
+  | taskDone (i : Nat)       -- `t<i>`: own task number `i` completes
+  | dropOldest               -- `y`
+  | disposeOwner             -- `x`
+  | ev (e : REv)
+  deriving Repr
+
+/-- a reader (and its task entry) is appended only when `rrStep` appended one (the owner is alive) -/
+def rtStep (s : ResRT) : RTEv → ResRT
+  | .readTask =>
+    let b := rrStep s.base .read
+    if b.readers.length > s.base.readers.length then ⟨b, s.tasks ++ [some s.nv], s.nv + 1⟩ else { s with base := b }
+  | .read =>
+    let b := rrStep s.base .read
+    if b.readers.length > s.base.readers.length then ⟨b, s.tasks ++ [none], s.nv⟩ else { s with base := b }
+  | .taskDone i => { s with tasks := s.tasks.map fun t => if t == some i then none else t }
+  | .dropOldest => ⟨rrStep s.base .dropOldest, s.tasks.tail, s.nv⟩
+  | .disposeOwner => { s with base := rrStep s.base .disposeOwner }
+  | .ev e => { s with base := rrStep s.base (.ev e) }
+
+/-- per reader boundary: it is loading iff the resource holds a guard for it or its own task is pending -/
+def ResRT.loading (s : ResRT) : List Bool := List.zipWith (fun r t => r.guard || t.isSome) s.base.readers s.tasks
+
+/-! ### boundary observers that write the dependency when their boundary resolves (`resourcerdw c`)
+
+A delivery that releases at least one reader guard is followed by the write of `c` to the dependency, if it differs. -/
+
+def rwStep (c : Nat) (s : ResR) (ev : RREv) : ResR :=
+  let s' := rrStep s ev
+  let delivered := match ev with
+    | .ev (.finish k) => s.alive && k = s.res.started && !s.res.completedLatest
+    | _ => false
+  let released := s.readers.any (·.guard)
+  if delivered && released && s'.res.dep != c then rrStep s' (.ev (.write c)) else s'
+
+/-! ### a fetch that moves the dependency on as its last step (`resourceself c`, D28)
+
+The completion of the latest fetch, when the dependency differs from `c`, IS the write of `c`: the fetch is superseded
+while it is finishing and delivers nothing. -/
+
+def selfStep (c : Nat) (r : Res) : REv → Res
+  | .finish k => if k = r.started && !r.completedLatest && r.dep != c then rstep r (.write c) else rstep r (.finish k)
+  | .write v => rstep r (.write v)
+
 end SycVerif.Async
